@@ -62,7 +62,10 @@ impl Composer {
     /// the above example, the deconstruction of 4 for `N < 3` would result in
     /// an unsatisfied circuit.
     ///
-    /// Consumes `2 · N + 1` gates
+    /// Consumes `2 · N + 1` gates. For `N >= 255` the bits could otherwise
+    /// also encode `scalar + r` (the running sum is only checked modulo the
+    /// field modulus `r < 2^255`), so a canonical `< r` guard is appended for
+    /// those widths, pinning the result to the bits of the canonical value.
     pub fn component_decomposition<const N: usize>(
         &mut self,
         scalar: Witness,
@@ -70,7 +73,11 @@ impl Composer {
         // Static assertion
         assert!(0 < N && N <= 256);
 
+        // Split position of the canonical guard for `N >= 255`.
+        const GUARD_SPLIT: usize = 128;
+
         let mut decomposition = [Self::ZERO; N];
+        let mut low = Self::ZERO;
 
         let acc = Self::ZERO;
         let acc = self[scalar]
@@ -89,10 +96,34 @@ impl Composer {
                     .a(*w_bit)
                     .b(acc);
 
-                self.gate_add(constraint)
+                let acc = self.gate_add(constraint);
+                if i + 1 == GUARD_SPLIT {
+                    low = acc;
+                }
+                acc
             });
 
         self.assert_equal(acc, scalar);
+
+        // `N` boolean bits below 255 sum to an integer below `2^254 < r`, so
+        // the equality above is an integer equality. With 255 or 256 bits the
+        // sum may also be `scalar + r`: require the integer `high * 2^128 +
+        // low` encoded by the bits to be below `r`. `low` is the running sum
+        // of the first 128 bits and `high` the value of the remaining ones,
+        // both bounded by construction from the boolean bits.
+        if N >= 255 {
+            let pow_inv = BlsScalar::pow_of_2(GUARD_SPLIT as u64)
+                .invert()
+                .expect("a power of two is non-zero");
+            let high = self.gate_add(
+                Constraint::new()
+                    .left(pow_inv)
+                    .right(-pow_inv)
+                    .a(scalar)
+                    .b(low),
+            );
+            self.assert_canonical_truncation(high, low, GUARD_SPLIT);
+        }
 
         decomposition
     }
